@@ -52,6 +52,13 @@ def co_marker_scenarios(sid, own, kind, typ, sets_for, aux=None, sibs=None):
         per = [sets_for(f["names"][0]) for f in fs]
         n = max(len(v) for v in per)
         structs.append(struct("Tl%d" % j, fs, [case([v[(j2 + i) % len(v)] for i, v in enumerate(per)]) for j2 in range(n)], gendoc=["//govalid:" + sb]))
+    # one declaration with several names (`A, B, C T`): the markers of the declaration govern every name
+    mfs = [fld(["P%d" % j, "Q%d" % j, "R%d" % j], ["//govalid:" + o] + (["//govalid:" + sibs[j % len(sibs)]] if sibs[j % len(sibs)].split("=")[0] != o.split("=")[0] else []), typ)
+           for j, o in enumerate(own)]
+    mpaths = [nm for f in mfs for nm in f["names"]]
+    per = [sets_for(p_) for p_ in mpaths]
+    n = max(len(v) for v in per)
+    structs.append(struct("Mn", mfs, [case([v[(j2 + 2 * i) % len(v)] for i, v in enumerate(per)]) for j2 in range(n)]))
     # the SAME marker on the struct declaration with another parameter: both rules govern the field, each with its own N
     import re as _re
     for j, o in enumerate(own):
@@ -350,6 +357,9 @@ def c04(seed, tier):
         lcases.append(case([set_coll(f["names"][0], False, ln) for f in lfields if f["type"]["vk"] == "coll"]))
     lit = struct("L", lfields, lcases)
     cos = []
+    # arrays: `required` renders no check for them (a rule without a check next to rules with one)
+    for tag, t in (("ar3", array(3)), ("ar1", array(1))):
+        cos.append(co_marker_scenarios("c04co" + tag, ["minitems=2", "maxitems=2", "maxitems=3", "minitems=4"], "coll", t, lambda p: [{"path": p, "vk": "arr"}]))
     for tag, t in (("sl", SLICE), ("mp", MAP), ("ch", CHAN), ("nsl", dict(SLICE, go="NSl", model="TNamed (TSlice)"))):
         cos.append(co_marker_scenarios("c04co" + tag, ["minitems=2", "maxitems=2", "minitems=1"], "coll", t,
                                        lambda p: [set_coll(p, True, 0), set_coll(p, False, 0), set_coll(p, False, 1), set_coll(p, False, 2), set_coll(p, False, 3), set_coll(p, False, 4)],
@@ -720,6 +730,7 @@ def c07(seed, tier):
     scen += name_variety("c07n")
     scen += override_shapes("c07")
     scen += deep_siblings("c07")
+    scen += checkless_rules("c07")
     scen += unmarked_nested_first("c07")
     scen += known_shapes("c07k")
     return {"scenarios": scen}
@@ -827,6 +838,20 @@ def deep_siblings(prefix):
         [case([set_str("Server.TLS.Certs.Primary.File", a), set_str("Server.TLS.Certs.Backup.File", b), set_str("Server.TLS.Certs.Extra.Key", c)])
          for a in (b"", b"p.pem") for b in (b"", b"b.pem", b"much-too-long.pem") for c in (b"", b"kk")])
     return [scenario(prefix + "deep8", [struct("T", fields, cases), cfg])]
+
+
+def checkless_rules(prefix):
+    """a rule that renders no check (required on an array or on a struct value) next to rules that do, on one field, from the
+    struct declaration, and inside an inline struct: the other rules and their entries stay"""
+    s, i64 = basic("string"), basic("int")
+    a3 = array(3)
+    box = struct("Box", [fld("Grid", ["//govalid:required", "//govalid:maxitems=2"], a3), fld("Row", ["//govalid:minitems=4", "//govalid:required"], a3),
+                         fld("Name", ["//govalid:required"], s), fld("O", ["//govalid:required"], OTHER_STRUCT),
+                         fld("In", [], nested=[fld("Cells", ["//govalid:required", "//govalid:maxitems=1", "//govalid:minitems=5"], a3), fld("K", ["//govalid:gt=0"], i64)])],
+                 [case([]), case([set_str("Name", b"n"), set_int("In.K", 1)]), case([set_str("Name", b""), set_int("In.K", 0)])])
+    tl = struct("Shelf", [fld("Slots", ["//govalid:maxitems=2"], a3), fld("Tags", ["//govalid:minitems=1"], SLICE), fld("Label", [], s), fld("O", [], OTHER_STRUCT)],
+                [case([]), case([set_coll("Tags", False, 1), set_str("Label", b"l")]), case([set_coll("Tags", False, 0)])], gendoc=["//govalid:required"])
+    return [scenario(prefix + "nochk", [box, tl], aux=[OTHER_STRUCT_AUX])]
 
 
 def unmarked_nested_first(prefix):
@@ -978,6 +1003,13 @@ def c09(seed, tier):
                gendoc=["//govalid:enum=x,y,q", "//govalid:required"])]))
     scen += override_shapes("c09")
     scen += deep_siblings("c09")
+    scen += checkless_rules("c09")
+    # a marked struct followed, in the same group, by a struct without rules whose name differs only in case (both map to one
+    # output name; nothing is generated for the second, the file of the first stays)
+    scen.append(scenario("c09case", [struct("Account", [fld("Owner", ["//govalid:required"], s), fld("Balance", ["//govalid:gte=0"], i64)],
+                                            [case([]), case([set_str("Owner", b"bob"), set_int("Balance", -1)]), case([set_str("Owner", b"bob"), set_int("Balance", 3)])]),
+                                     struct("User", [fld("Name", ["//govalid:required"], s)], [case([]), case([set_str("Name", b"u")])])],
+                         grouped=True, groupaux=["account struct {\n\t\towner   string\n\t\tbalance int\n\t}", "uSER struct {\n\t\t//govalid:bogus\n\t\tName string\n\t}"]))
     scen += unmarked_nested_first("c09")
     # embedded fields
     scen.append(scenario("c09emb", [
